@@ -9,11 +9,12 @@
    is_env      : Call, CtxDone, CloseMark.  Every other label is a step some goroutine of
    the Writer, the broker or a timer takes on its own.
 
-   DEFECT F3 (confirmed on the implementation by the f3 replay of harness/cmd/writer): a
-   WriteMessages call that passed enter() before Close marked the writer closed, and whose
-   batchMessages runs after Close emptied w.writers, creates a new partition writer; its
-   sender goroutine waits on a queue nobody will close, the WaitGroup never reaches 0, Close
-   never returns.  The model records this interleaving in the ghost flag s_late. *)
+   Former defect F3 (fixed in /repo by re-checking w.closed under w.mutex in batchMessages):
+   a WriteMessages call that passed enter() before Close marked the writer closed, and whose
+   batchMessages ran after Close emptied w.writers, created a partition writer nobody closes
+   and Close never returned.  Now that call fails with io.ErrClosedPipe (label Assign in a
+   closed state), and the theorems below hold for EVERY run.  The regression scenario is run
+   on the implementation by op f3 of harness/cmd/writer. *)
 From Coq Require Import List NArith Bool Arith.
 From KV Require Import Lib.LTS Model.Writer Proofs.WriterStmts Proofs.WriterC09.
 Import ListNotations.
@@ -27,31 +28,19 @@ Theorem C09_w_after_close :
 Proof. exact C09_w_after_close_proof. Qed.
 Print Assumptions C09_w_after_close.
 
-(* The property at full strength: Close is never stuck, in every schedule. *)
-Definition C09_w_close_no_stuck_full_statement : Prop :=
-  forall cfg ls s, cfg_ok cfg -> run (step cfg) init ls = Some s -> ~ stuck cfg s.
-
-(* It is REFUTED by the code as it is (F3): a reachable stuck state exists.  Witness (in
-   Proofs/WriterC09.v, checked by vm_compute): BatchSize 1, one message;
-   [Call; CloseMark; Assign 0; Timer 0 0; Get 0; Attempt 0 AppliedAcked; Finish 0; Return 0] —
-   WriteMessages returns nil, the record is produced, Close waits forever. *)
-Theorem C09_w_close_refuted :
-  exists cfg ls s, cfg_ok cfg /\ run (step cfg) init ls = Some s /\ stuck cfg s.
-Proof. exact C09_w_close_refuted_proof. Qed.
-Print Assumptions C09_w_close_refuted.
-
-Theorem C09_w_close_no_stuck_is_false : ~ C09_w_close_no_stuck_full_statement.
-Proof. exact C09_w_close_no_stuck_false. Qed.
-Print Assumptions C09_w_close_no_stuck_is_false.
-
-(* Outside that interleaving Close is never stuck: in every reachable state in which Close
-   waits and no batchMessages ran after CloseMark, some non-environment step is enabled
-   (a timer, a sender step, a waiting call's return, or — WaitGroup at 0 — Close's return). *)
-Theorem C09_w_close_no_stuck_partial :
-  forall cfg ls s, run (step cfg) init ls = Some s -> s_late s = false -> s_close s = ClWaiting ->
+(* Close is never stuck, in every schedule: in every reachable state in which Close waits,
+   some non-environment step is enabled (a timer, a sender step, a pending batchMessages — which
+   now returns ErrClosedPipe —, a waiting call's return, or — WaitGroup at 0 — Close's return). *)
+Theorem C09_w_close_no_stuck :
+  forall cfg ls s, run (step cfg) init ls = Some s -> s_close s = ClWaiting ->
     exists l, is_env l = false /\ step cfg s l <> None.
-Proof. exact C09_w_close_no_stuck_partial_proof. Qed.
-Print Assumptions C09_w_close_no_stuck_partial.
+Proof. exact C09_w_close_no_stuck_proof. Qed.
+Print Assumptions C09_w_close_no_stuck.
+
+Theorem C09_w_close_never_stuck :
+  forall cfg ls s, run (step cfg) init ls = Some s -> ~ stuck cfg s.
+Proof. exact C09_w_close_never_stuck_proof. Qed.
+Print Assumptions C09_w_close_never_stuck.
 
 (* The WaitGroup counter is exactly the number of live accounted activities (calls between
    enter and leave, sender goroutines, awaitBatch goroutines): it never underflows and Close's
@@ -72,8 +61,8 @@ Print Assumptions C09_w_stuckb_sound.
    its awaitBatch goroutines, 2*MaxAttempts + 3 per batch not yet sent, the remaining attempts
    of the batch being sent; 1 while Close waits) strictly decreases on EVERY non-environment
    step.  Hence between two environment decisions only finitely many steps happen, and with
-   C09_w_close_no_stuck_partial every fair run without the late batchMessages lets Close
-   return.  (Wall-clock bounds are outside the model.) *)
+   C09_w_close_no_stuck every fair run lets Close return.  (Wall-clock bounds are outside the
+   model.) *)
 Theorem C09_w_close_variant :
   forall cfg ls s l s', run (step cfg) init ls = Some s -> is_env l = false ->
     step cfg s l = Some s' -> mu cfg s' < mu cfg s.
@@ -85,7 +74,7 @@ Print Assumptions C09_w_close_variant.
    of every accepted call has been handed to the Completion callback — i.e. it was
    acknowledged or exhausted its attempts (C01_completion_once gives the outcome). *)
 Theorem C09_w_close_post :
-  forall cfg ls s, run (step cfg) init ls = Some s -> s_late s = false -> s_close s = ClReturned ->
+  forall cfg ls s, run (step cfg) init ls = Some s -> s_close s = ClReturned ->
     (forall p pw, nth_error (s_pws s) p = Some pw ->
        pw_curr pw = None /\ pw_queue pw = [] /\ pw_snd pw = None /\ pw_alive pw = false /\ pw_await pw = []) /\
     (forall c cl, nth_error (s_calls s) c = Some cl -> returned cl = true) /\
@@ -94,17 +83,19 @@ Theorem C09_w_close_post :
 Proof. exact C09_w_close_post_proof. Qed.
 Print Assumptions C09_w_close_post.
 
-(* ---- non-vacuity: Close racing a waiting call and an open batch, without the late Assign:
-   the open batch is flushed by CloseMark, sent, the call returns, the sender exits, Close
-   returns. *)
+(* ---- non-vacuity: Close racing a waiting call with an open batch AND a call that passed
+   enter() but not yet batchMessages: the open batch is flushed by CloseMark and sent (one retry),
+   the first call returns nil, the late call returns ErrClosedPipe, the sender exits, Close
+   returns; a call after that is refused. *)
 Definition ex_cfg : config := mkCfg 5 100 2 false (Some 0%N) (fun e => N.eqb e 7).
 Definition ex_run : list label :=
-  [Call 1 [mkMsg 1 None 30 0] None; Assign 0; CloseMark; Get 0; Attempt 0 (NotApplied 7%N);
-   BackoffDone 0; Attempt 0 AppliedAcked; Finish 0; Timer 0 0; Return 0; SenderExit 0; CloseWaitDone;
-   Call 1 [mkMsg 2 None 30 0] None].
+  [Call 1 [mkMsg 1 None 30 0] None; Assign 0; Call 2 [mkMsg 2 None 30 0] None; CloseMark; Assign 1;
+   Get 0; Attempt 0 (NotApplied 7%N); BackoffDone 0; Attempt 0 AppliedAcked; Finish 0; Timer 0 0;
+   Return 0; SenderExit 0; CloseWaitDone; Call 1 [mkMsg 3 None 30 0] None].
 Example C09_nonvacuous :
-  exists s, run (step ex_cfg) init ex_run = Some s /\ s_late s = false /\ s_close s = ClReturned /\
-            map c_ph (s_calls s) = [CReturned RNil; CReturned (RErr EClosed)] /\ s_wg s = 0.
+  exists s, run (step ex_cfg) init ex_run = Some s /\ s_close s = ClReturned /\
+            map c_ph (s_calls s) = [CReturned RNil; CReturned (RErr EClosed); CReturned (RErr EClosed)] /\
+            s_wg s = 0 /\ length (s_pws s) = 1.
 Proof.
   eexists. split; [vm_compute; reflexivity|]. split; [vm_compute; reflexivity|].
   split; [vm_compute; reflexivity|]. split; vm_compute; reflexivity.
